@@ -11,6 +11,7 @@ import (
 	"golang.org/x/net/html"
 
 	"verif/harness/mon"
+	"verif/harness/sim"
 )
 
 func init() {
@@ -228,13 +229,13 @@ func runC16(c *mon.Ctx) {
 			}
 			raw, derr := base64.StdEncoding.DecodeString(b64)
 			d := etree.NewDocument()
-			if derr != nil || d.ReadFromBytes(raw) != nil {
+			if derr != nil || d.ReadFromString(sim.ConformingView(string(raw))) != nil {
 				cs.Violation("message-field-undecodable", "SAMLRequest field of BuildAuthBodyPost does not decode to XML (%v)", derr)
 				continue
 			}
 			var got, want strings.Builder
 			shape(d.Root(), &got)
-			expectedOutbound(sp, "authn", OutArgs{}, now, sp.SignAuthnRequests).shape(&want, o.AttrCR)
+			expectedOutbound(sp, "authn", OutArgs{}, now, sp.SignAuthnRequests).shape(&want, false)
 			if got.String() != want.String() {
 				cs.Violation("message-field-differs", "internally built AuthnRequest differs from configuration:\n want %s\n got  %s", trunc(want.String(), 500), trunc(got.String(), 500))
 				continue
